@@ -22,6 +22,10 @@ CHECKS = {
          "For every explored (instant, offset) state both constructions and readings, conversions, ==/cmp/Hash against the same instant in other zones, all accessors and a formatted wall clock (including the one-day headroom) are compared with the reference; then one step of each with_*, with_time, +-Days, +-Months is taken and the result must be exactly the instant the wall-clock rule gives, None when the tuple does not exist or the instant leaves the range, and never a value outside the range.",
          "Trusted: RefCal and the wall = utc + offset rule. A non-zero step whose target wall-clock date lies in the one-day headroom may answer either way (value still checked).",
          "DESIGN.md §4 C04"),
+ 'C05': ("exhaustive enumeration of all bounded zone models (<= 3 transitions over a type palette and spacing set, every TZif version/layout, footer variants), a POSIX-rule grid (all pairs of rule days x offsets x times incl. negative DST and both hemispheres) and every file of the system zoneinfo database, each probed at every second around every transition in both directions; wall-clock answers decided by brute-force inversion of the reference offset function",
+         "Each zone is written by an independent TZif/POSIX writer (or decoded by an independent reader for system files), loaded through the guarded accessor and through the real Local (TZ=... on a fresh thread), and queried at a dense instant set; the wall-clock oracle has no gap/fold case analysis of its own: it is the set {w - o : offset_at(w - o) = o}, compared as None / Single / Ambiguous(earliest, latest).",
+         "Trusted: RefTz/RefTzif/RefPosix (writer-reader identity asserted on every generated file; New_York rule self-test). Hook: chrono::offset::verif::VerifZone. Exempt: the boundary second T + offset_before; rules whose start/end order differs between years.",
+         "DESIGN.md §4 C05"),
  'C06': ("complete product of duration boundary lattices under every constructor/operation, then closure to depth 2 over the operations, every value compared with an exact i128 nanosecond model",
          "All pairs of a ~270-value lattice x {checked_add, checked_sub, +, -, cmp, Sum} and x every i32-lattice multiplier/divisor; every returned value is observed through all accessors, neg, abs, to_std and Display (parsed back by an independent reader); the values reached are used again as operands (depth 2), so non-lattice values are explored too. The range invariant is asserted on every value ever returned.",
          "Trusted: i128 arithmetic. Float accessors are not judged.",
